@@ -63,7 +63,7 @@ def run(prog, rep, tier='quick'):
                     n_dim += 1
                     if blocked(rep, 'dim', f.qname, ctx, itp):
                         continue
-                    dbv = [e for e in itp.events if e[0] == 'dtype-by-value' and e[3] == f.qname]
+                    dbv = [e for e in itp.events if e[0] == 'dtype-by-value' and (e[3] == f.qname or e[3].startswith('periodogram.'))]
                     if dbv:
                         key = ('dbv', normalise(dbv[0][1]))
                         if key not in seen:
